@@ -90,7 +90,9 @@ Inductive cfg_status :=
 | CfgNotFound        (* no config file *)
 | CfgBadYaml         (* not YAML / not a mapping *)
 | CfgUnknownKey      (* ErrorUnused *)
-| CfgBadType.        (* a value of the wrong shape *)
+| CfgBadType         (* a value of the wrong shape *)
+| CfgBadRegex.       (* a regular expression, at any level, that does not compile: refused when the
+                        configuration is initialised (fixes/c09-validate-regexes.diff), read or not *)
 
 (* a package with recursive: true: packages.Load(p/...) and what it found *)
 (* rr_exclude: the exclude-subpkg-regex list of that package (its own, else the inherited one) *)
@@ -399,7 +401,7 @@ Inductive fclass :=
 | ConfigUnreadable | UnknownKey | BadRegexSubpkg | BadRegexInterface | CyclicTemplate
 | BadTemplatedValue | SchemaMissing | SchemaReject | TemplateSyntax | TemplateExecution
 | InvalidGoOutput | PrepareFailure | ConflictPackage | ConflictPkgName | ConflictTemplate
-| NoPackages | OutputIsDirectory | OutputParentIsFile.
+| NoPackages | OutputIsDirectory | OutputParentIsFile | InvalidRegexWritten.
 
 (* an invalid include- / exclude-interface-regex that the selection of [name] reaches *)
 Definition bad_regex_reached (p : package) (name : str) : Prop :=
@@ -449,6 +451,7 @@ Definition has_class (w : world) (c : fclass) : Prop :=
   | NoPackages => w_pkgs w = []
   (* the file cannot be written: a directory occupies the output path (whatever force-file-write
      says), or a regular file stands where one of its parent directories should be *)
+  | InvalidRegexWritten => w_cfg w = CfgBadRegex
   | OutputIsDirectory => exists x g, file_gov w x = Some g /\ w_fs w (q_path g) = Some Dir
   | OutputParentIsFile => exists x g a c, file_gov w x = Some g /\ strict_prefix a (q_path g) = true /\
                                           a <> [] /\ w_fs w a = Some (File c)
